@@ -200,8 +200,8 @@ STRUCT = {"str": 40, "BS": 48, "lst": 48}     # OCTET_STRING_t, BIT_STRING_t, A_
 
 def sweep_bound(t, syn, wrap):
     """(c, K, why) for a swept type; K never mentions lb / ub of the SIZE constraint"""
-    if t is None:                                   # INTEGER / ENUMERATED contents
-        return 2, H + 2 * 65537 + 2, "INTEGER contents: one fragment (<= 64K octets) is allocated before it is read (UPER); length compared with the input first (OER, BER)"
+    if t is None:                                   # INTEGER / ENUMERATED / OID / REAL / time contents
+        return 2, H + 3 * 65536 + 2, "length-prefixed primitive: one fragment (<= 64K octets) is allocated before it is read (UPER, as an unconstrained string); length compared with the input first (OER, BER)"
     if t.is_str:
         Ub = max(1, t.bpc)
         if syn == "uper":
@@ -285,7 +285,7 @@ def sweep(run, rng, tier, model, inp):
             continue
         if len(data) > 70000 and tier == "quick" and t.kind not in ("OS", "QB"):
             continue
-        if t.is_str and not t.rand_ok and t.kind in ("PR", "VS") and any(w in lab for w in ("random", "partial", "some data")):
+        if t.is_str and t.kind in ("PR", "VS", "NS") and any(w in lab for w in ("random", "partial", "some data")):
             continue        # restricted alphabets: a code outside the alphabet ends the C decode early (not modelled)
         src = data.hex() or "-"
         if len(data) > 2048:
@@ -309,7 +309,7 @@ def sweep(run, rng, tier, model, inp):
     # ---- oracle and faithfulness (violations are reported oracle first: they carry the failing input)
     viol = []
     emit = lambda kind, replay: viol.append((0 if kind.startswith("oracle:heap(") else 1 if kind.startswith("oracle") else 2, len(viol), kind, replay))
-    stats = {"cases": len(cases), "jobs": len(jobs), "types": len(ts) + 3 * len(SW.WRAPPED) + 5, "model_compared": 0, "valid_ok": 0, "refused_requests": 0}
+    stats = {"cases": len(cases), "jobs": len(jobs), "types": len(ts) + 3 * len(SW.WRAPPED) + 10, "model_compared": 0, "valid_ok": 0, "refused_requests": 0}
     tight = []
     for j in jobs:
         tn, syn, lab, data, exp, t, wrap = cases[j["i"]]
